@@ -9,10 +9,10 @@ package main
 
 import (
 	"bytes"
-	"os/exec"
 	"context"
 	"fmt"
 	"os"
+	"os/exec"
 	"path/filepath"
 	"runtime"
 	"strings"
